@@ -78,6 +78,16 @@ OTHER_KINDS = [["d", [[2, 3], [2.5, 5], [4, 6]], [0.2, 0.5, 0.3]], ["D", "unifor
                ["d", [[1, 2], [1.5, 2.5], [3, 5]], [0.5, 0.25, 0.25]], ["D", "gaussian", [6, 0.5]]]
 
 
+# sign classes of p-box operands (both bounds): positive, negative, straddling zero (two shapes), touching zero
+# from above / from below; and the positive box at a tiny and a huge power-of-two scale
+SIGN_BOXES = [("pos", [1, 2, 3], [2, 3, 5]), ("neg", [-5, -3, -2], [-4, -2, -1]), ("str", [-2, -1, 1], [-1, 2, 3]),
+              ("str2", [-3, -1, 0.5], [-0.5, 1, 2]), ("t0lo", [0, 1, 2], [1, 2, 4]), ("t0hi", [-4, -2, -1], [-2, -1, 0]),
+              ("tiny", [2.0 ** -40, 2.0 ** -39, 3 * 2.0 ** -40], [2.0 ** -39, 3 * 2.0 ** -40, 5 * 2.0 ** -40]),
+              ("huge", [2.0 ** 36, 2.0 ** 37, 3 * 2.0 ** 36], [2.0 ** 37, 3 * 2.0 ** 36, 5 * 2.0 ** 36])]
+SIGN_CLASSES = ["pos", "neg", "str", "str2", "t0lo", "t0hi"]
+SCALE_PAIRS = [("tiny", "tiny"), ("huge", "huge"), ("tiny", "huge"), ("huge", "tiny"), ("pos", "tiny"), ("huge", "pos")]
+
+
 class Pool:
     def __init__(self, rng, n_extra=2, desc=None):
         C, P, O = _repo()
@@ -88,8 +98,13 @@ class Pool:
                 lo = sorted(rng.choice([1, 1.5, 2, 2.5, 3, 4]) for _ in range(k))
                 hi = sorted(l + rng.choice([0.5, 1, 1.5, 2]) for l in lo)
                 base.append((lo, hi))
-            desc = [["p", l, r] for l, r in base] + OTHER_KINDS
+            desc = [["p", l, r] for l, r in base] + OTHER_KINDS + [["p", l, r] for _, l, r in SIGN_BOXES]
         self.desc = desc
+        self.npos = next(i for i, d in enumerate(desc) if d[0] != "p")     # the leading positive p-boxes
+        self.sign = {}                                                      # sign class -> operand index
+        tail = len(desc) - len(SIGN_BOXES)
+        if all(desc[tail + j][0] == "p" and list(desc[tail + j][1]) == list(b[1]) for j, b in enumerate(SIGN_BOXES)):
+            self.sign = {b[0]: tail + j for j, b in enumerate(SIGN_BOXES)}
         self.kind = [d[0] for d in desc]
         self.obj = [make_operand(d) for d in desc]
         # `box` = the operand converted to a p-box (what every method does first), built in an empty Context
@@ -98,7 +113,7 @@ class Pool:
         self._low = {}
         # p-box pairs on which the four dependencies give four different results for every operator
         self.pairs = []
-        pb = [i for i, k in enumerate(self.kind) if k == "p"]
+        pb = [i for i, k in enumerate(self.kind) if k == "p" and i < self.npos]
         for xi in pb:
             for yi in pb:
                 if xi != yi and all(len({self.explicit(op, xi, yi, d) for d in KNOWN}) == 4 for op in OPS):
@@ -161,6 +176,29 @@ class Pool:
                     return ("err", err_kind(e))
             self._explicit[key] = contextvars.Context().run(call)
         return self._explicit[key]
+
+    def prep_error(self, op, xi, yi):
+        """the error (if any) of preparing the second operand, which sub / div do before looking at the code"""
+        key = ("prep", op, yi)
+        if key not in self._low:
+            y = self.box[yi]
+            try:
+                if op in ("sub", "rsub"):
+                    -y
+                elif op == "div":
+                    1 / y
+                self._low[key] = None
+            except Exception as e:
+                self._low[key] = ("err", err_kind(e))
+        return self._low[key]
+
+    def explicit_here(self, op, xi, yi, code_tok):
+        """the explicit method with dependency=code in the CALLER's context (whatever block it is in)"""
+        x, y, d = self.box[xi], self.box[yi], PYVAL[code_tok]
+        try:
+            return self.digest(getattr(x, op)(y, d))
+        except Exception as e:
+            return ("err", err_kind(e))
 
     def explicit_inside(self, op, xi, yi, code_tok, ambient_tok):
         """the explicit method with dependency=code, called inside `with dependency(ambient)` (caller's context)"""
@@ -245,6 +283,7 @@ def flatten(prog, kinds):
             elif k == "arith":
                 op = "powD" if (it[1] == "pow" and len(it) > 4 and it[4][0] == "D") else it[1]
                 out.append("A:" + op + (":" + it[4] if len(it) > 4 else ""))
+            elif k == "call": out.append("Q:%s:%s" % (it[1], it[4]))
             elif k == "spawn": out.append(("T:" if kinds[it[1]] in ("thread", "loop") else "K:") + str(it[1]))
             elif k == "gopen": out.append("E:" + it[1])
             elif k == "gcloseat": out.append("N:%d" % it[1])
@@ -289,6 +328,8 @@ def expectation(world):
                 if k == "get": out.append((cur, {"ev": "get", "depth": depth}))
                 elif k == "arith": out.append((cur, {"ev": "arith", "op": it[1], "xi": it[2], "yi": it[3], "depth": depth,
                                                      "kk": it[4] if len(it) > 4 else "pp"}))
+                elif k == "call":
+                    out.append((cur, {"ev": "call", "op": it[1], "xi": it[2], "yi": it[3], "code": it[4], "depth": depth}))
                 elif k == "spawn":
                     out.append((cur, {"ev": "spawn", "depth": depth}))
                     init[it[1]] = "f" if kinds[it[1]] in ("thread", "loop") else cur
@@ -442,6 +483,8 @@ class Actor:
                 self.turn(); self.obs()
             elif k == "arith":
                 self.turn(); self.obs(self.arith(it))
+            elif k == "call":
+                self.turn(); self.obs(self.run.pool.explicit_here(it[1], it[2], it[3], it[4]))
             elif k == "spawn":
                 self.turn(); self.s_spawn(it[1]); self.obs()
             elif k == "gopen":
@@ -642,6 +685,8 @@ class Actor:
                 await self.aturn(); self.obs()
             elif k == "arith":
                 await self.aturn(); self.obs(self.arith(it))
+            elif k == "call":
+                await self.aturn(); self.obs(self.run.pool.explicit_here(it[1], it[2], it[3], it[4]))
             elif k == "spawn":
                 await self.aturn(); self.a_spawn(it[1]); self.obs()
             elif k == "gopen":
@@ -1081,10 +1126,12 @@ def check_run(ctx, pool, stream, world, schedule, seqs, exp, log, crash, reply):
             if a != sa or tok_of(val) != mcode:
                 ok = False
                 break
-            if ev.startswith("A:"):
+            if ev.startswith(("A:", "Q:")):
                 it = exp[a][pos[a] - 1][1]
                 if mres.startswith("!"):
-                    if res != ("err", mres[1:]):
+                    # the model knows nothing about operand domains: `-y` / `1/y` are evaluated before the dispatch
+                    if res != ("err", mres[1:]) and not (res is not None and res[0] == "err"
+                                                         and res == pool.prep_error(ev.split(":")[1], it["xi"], it["yi"])):
                         ok = False
                         break
                 elif not mres or res != pool.lowlevel(it["xi"], it["yi"], mres):
@@ -1118,6 +1165,17 @@ def check_run(ctx, pool, stream, world, schedule, seqs, exp, log, crash, reply):
                     "stale": f"{d['ev']} in actor {a} ({kinds[a]}) observed {val!r}, its own history gives {PYVAL[ecode]!r}"}[kind]
             ctx.fail(feat, dict(case, actor=a, event_index=j), what)
             break
+        if d["ev"] == "call":
+            # an explicit method inside a block of another code must give, bit for bit, what it gives outside
+            ref = pool.explicit(d["op"], d["xi"], d["yi"], d["code"])
+            if res != ref:
+                sc = {v: k for k, v in pool.sign.items()}
+                ctx.fail({"call": "method", "kind": "method-reads-ambient", "op": d["op"], "code": d["code"], "ambient": ecode,
+                          "xclass": sc.get(d["xi"], "pos"), "yclass": sc.get(d["yi"], "pos")},
+                         dict(case, actor=a, event_index=j, got=js_res(res), outside=js_res(ref)),
+                         f"explicit `x.{d['op']}(y, {PYVAL[d['code']]!r})` called inside `with dependency({PYVAL[ecode]!r})` "
+                         f"differs from the same call outside any block (operands {sc.get(d['xi'], 'pos')}, {sc.get(d['yi'], 'pos')})")
+                break
         if d["ev"] == "arith":
             op, xi, yi = d["op"], d["xi"], d["yi"]
             kk = d.get("kk", "pp")
@@ -1275,6 +1333,32 @@ def run(ctx: core.Check):
         per = rng.randint(3, 7 if len(shape) <= 2 else 5)
         add_world("deferred-" + stream, make_world(rng, pool, shape, per, deferred=0.7), ctx.scale(12, 40))
 
+    # 9. explicit methods inside blocks of OTHER ambient codes, and bare operators, over the sign classes of both
+    #    operands (positive, negative, straddling zero, touching zero) and over tiny / huge scales: every
+    #    (op, explicit dependency) x ambient code incl. unknown ones; result bitwise equal to the call outside
+    if pool.sign:
+        k = 0
+        cls_pairs = list(itertools.product(SIGN_CLASSES, SIGN_CLASSES)) + SCALE_PAIRS
+        for (cx, cy) in cls_pairs:
+            xi, yi = pool.sign[cx], pool.sign[cy]
+            for op in BARE:
+                for dep in KNOWN:
+                    k += 1
+                    others = [c for c in KNOWN if c != dep]
+                    if ctx.tier == "thorough":
+                        ambs = others + [dep, unk[k % len(unk)], unk[(k + 3) % len(unk)]]
+                    else:
+                        ambs = [others[k % 3], unk[k % len(unk)]]
+                    prog = []
+                    for j, amb in enumerate(ambs):
+                        body = [["call", op, xi, yi, dep]]
+                        if (k + j) % 3 == 0:          # the bare operator on the same operands, under the ambient code
+                            body.append(["arith", op, xi, yi])
+                        prog.append(["block", amb, SYNC_HOWS[(k + j) % len(SYNC_HOWS)], body, False])
+                    if k % 5 == 0:
+                        prog.append(["call", op, xi, yi, unk[k % len(unk)]])
+                    add_world("explicit-in-block", one("thread" if k % 4 else "loop", prog), 1)
+
     replies = core.model_batch("C16", [wire(s, seqs) for (_, _, s, seqs, _) in jobs])
     for (stream, world, s, seqs, exp), rep in zip(jobs, replies):
         nontriv = any(e not in (None, "f") for a in exp for e, _ in exp[a]) or stream == "nonlifo"
@@ -1286,7 +1370,7 @@ def run(ctx: core.Check):
             ctx.bump("actor:" + a["kind"])
         ctx.bump("events", len(s))
         ctx.bump("depth:%d" % max(max_depth(a["prog"]) for a in world["actors"]))
-        if len(ctx.samples) < 8 and stream in ("threads", "tasks", "mixed", "nonlifo", "kinds", "deferred", "deferred-threads") and ctx.evaluations % 97 == 0:
+        if len(ctx.samples) < 8 and stream in ("threads", "tasks", "mixed", "nonlifo", "kinds", "deferred", "deferred-threads", "explicit-in-block") and ctx.evaluations % 97 == 0:
             ctx.sample({"stream": stream, "world": world, "schedule": s, "model": rep,
                         "impl": [[a, tok_of(v), js_res(x)] for a, v, x in log]})
 
@@ -1321,6 +1405,50 @@ def run(ctx: core.Check):
             ctx.fail({"call": "method", "kind": "known-fails", "op": op, "code": code, "err": impl[1]},
                      {"stream": "dispatch", "op": op, "code": code, "x": pool.desc[xi], "y": pool.desc[yi]},
                      f"explicit `{op}` with dependency {code!r} raised {impl[1]} on positive p-boxes")
+    # (L) copied / deep-copied / pickled operands behave like the originals inside a block; a result used as operand
+    import copy, pickle
+    C, P, O = _repo()
+    xi, yi = pool.pairs[0]
+    x, y = pool.box[xi], pool.box[yi]
+    variants = {"copy": copy.copy, "deepcopy": copy.deepcopy, "pickle": lambda b: pickle.loads(pickle.dumps(b))}
+    fns = {"add": operator.add, "sub": operator.sub, "mul": operator.mul, "div": operator.truediv, "pow": operator.pow}
+    for vname, vf in variants.items():
+        try:
+            xv, yv = vf(x), vf(y)
+        except Exception as e:
+            ctx.notes.append(f"{vname} of a p-box raised {type(e).__name__}; stream skipped")
+            continue
+        for op in BARE:
+            for code in KNOWN + ["u0"]:
+                def inside():
+                    try:
+                        with C.dependency(PYVAL[code]):
+                            return pool.digest(fns[op](xv, yv))
+                    except Exception as e:
+                        return ("err", err_kind(e))
+                got = contextvars.Context().run(inside)
+                ref = pool.explicit(op, xi, yi, code)
+                ctx.count(("copies", vname, op, code), True, "copies")
+                if (code in UNKNOWN and got[0] != "err") or (code in KNOWN and got != ref):
+                    ctx.fail({"call": "operator", "kind": "copied-operand", "variant": vname, "op": op, "code": code},
+                             {"stream": "copies", "variant": vname, "op": op, "code": code, "x": pool.desc[xi], "y": pool.desc[yi]},
+                             f"bare `{op}` on {vname} operands inside dependency({PYVAL[code]!r}) differs from the explicit method on the originals")
+    for code in KNOWN:
+        for op1, op2 in itertools.product(["add", "sub", "mul"], ["add", "mul", "div"]):
+            def chain_in():
+                with C.dependency(code):
+                    return pool.digest(fns[op2](fns[op1](x, y), x))
+            def chain_out():
+                return pool.digest(getattr(getattr(x, op1)(y, code), op2)(x, code))
+            ctx.count(("chain", op1, op2, code), True, "chain")
+            try:
+                a_, b_ = contextvars.Context().run(chain_in), contextvars.Context().run(chain_out)
+            except Exception as e:
+                a_, b_ = ("err", err_kind(e)), None
+            if a_ != b_:
+                ctx.fail({"call": "operator", "kind": "chained-result", "op": op1 + "," + op2, "code": code},
+                         {"stream": "chain", "ops": [op1, op2], "code": code, "x": pool.desc[xi], "y": pool.desc[yi]},
+                         f"(x {op1} y) {op2} x inside dependency({code!r}) differs from x.{op1}(y,{code!r}).{op2}(x,{code!r})")
     # operands must not be overwritten by any of the calls above (they were used again and again)
     if pool.snapshot() != snap0:
         ctx.fail({"call": "operator", "kind": "operand-overwritten"}, {"stream": "all", "pool": pool.desc},
